@@ -417,6 +417,17 @@ type retainedSlice struct {
 
 // Retain calls the slice-returning accessors on r for tag and keeps the ORIGINAL returned objects.
 func Retain(r *lazyproto.DecodeResult, tag int, what string) *Retained {
+	return retain(r, tag, what, false)
+}
+
+// RetainAll additionally keeps the result of EVERY slice-returning accessor. Only meaningful in safe mode: in fast mode
+// accessors of one Go type share a scratch slice on purpose (Int64Values / SInt64Values, UInt64Values / Fixed64Values,
+// ...), so calling them one after the other overwrites what the previous one returned.
+func RetainAll(r *lazyproto.DecodeResult, tag int, what string) *Retained {
+	return retain(r, tag, what, true)
+}
+
+func retain(r *lazyproto.DecodeResult, tag int, what string, all bool) *Retained {
 	x := &Retained{What: what}
 	if b, err := r.BytesValue(tag); err == nil {
 		x.bytes = append(x.bytes, b)
@@ -447,7 +458,7 @@ func Retain(r *lazyproto.DecodeResult, tag int, what string) *Retained {
 		x.ssnap = append(x.ssnap, strings.Clone(s))
 	}
 	rv := reflect.ValueOf(r)
-	for i := 0; i < rv.NumMethod(); i++ {
+	for i := 0; all && i < rv.NumMethod(); i++ {
 		name := rv.Type().Method(i).Name
 		mt := rv.Method(i).Type()
 		if !strings.HasSuffix(name, "Values") || mt.NumIn() != 1 || mt.In(0).Kind() != reflect.Int || mt.NumOut() != 2 || mt.Out(0).Kind() != reflect.Slice {
